@@ -4694,6 +4694,13 @@ class ResponseFuture(object):
         self._event.clear()
         self._final_result = _NOT_SET
         self._final_exception = None
+        # the page fetch is a request of its own: it gets the full timeout, a fresh timer
+        # (the previous page's timer was cancelled but is still referenced) and must not
+        # time out the previous page's stream id
+        self._start_time = time.time()
+        self._timer = None
+        self._connection = None
+        self._req_id = None
         self._start_timer()
         self.send_request()
 
